@@ -67,7 +67,7 @@ CHECKS = {
 }
 
 # additions of session 4 (see DESIGN.md 8.5, fourth round)
-CHECKS["C03"]["text"] += " Family fbase-divisor: a prime of the factor base (14 primes on both sides of the sieve's size classes) divides a 100..160-bit n, under Qs/Mpqs/Siqs."
+CHECKS["C03"]["text"] += " Family multiplier: one 116-bit input per multiplier value the real select_multiplier returns over 3200 semiprimes, under Siqs and Mpqs. Family fbase-divisor: a prime of the factor base (14 primes on both sides of the sieve's size classes) divides a 100..160-bit n, under Qs/Mpqs/Siqs."
 CHECKS["C04"]["text"] += " Free-running supplement (labelled one schedule per run): real rayon pools of 1..16 threads on a sub-corpus, including six 30..61-bit semiprimes where pool threads start from the far end of the work ranges."
 CHECKS["C05"]["text"] += " (c) abort already true when the call starts on 128..350-bit (thorough 500-bit) semiprimes x 6 selectors: CPU of the whole call <= 1 s; (d) pooled ECM/SIQS/MPQS/automatic runs with the flag raised from outside after 3-6 s of CPU: CPU of all threads between signal and return <= 2.5 s, a call still working 40 s later is abandoned and reported."
 CHECKS["C06"]["text"] += " The family p(2p-1) is enumerated completely below 2^64 in both tiers (segmented sieve over p), the shapes p(3p-2), p(4p-3), p(5p-4) to p < 2^29 (quick) / completely (thorough)."
